@@ -136,6 +136,10 @@ pub fn decide(op: &'static str, args: Vec<u32>, ulps: u32) -> bool {
 
 /// comparison of two scalars: decided concretely when both are constants
 pub fn cmp(op: &'static str, a: u32, b: u32) -> bool {
+    // the same node on both sides: the two computations are literally the same expression (hash-consed DAG)
+    if a == b {
+        return op != "ltb";
+    }
     if let (Some(x), Some(y)) = (konst(a), konst(b)) {
         return match op {
             "eqb" => x == y,
